@@ -181,7 +181,7 @@ class Statement(object):
         """
         try:
             self.code_pkg = self.operand.translate()
-            self.fixed_size = not (self.code_pkg.additional_needs_resolution or self.code_pkg.post_byte_choices)
+            self.fixed_size = not self.code_pkg.post_byte_choices
         except Exception as error:
             raise TranslationError(str(error), self)
 
@@ -296,6 +296,14 @@ class Statement(object):
 
         if self.operand.value.is_address():
             self.code_pkg.additional = statements[self.operand.value.int].code_pkg.address
+
+        if self.code_pkg.additional_needs_resolution and not self.code_pkg.post_byte_choices:
+            # A label used as a constant offset from a pointer register
+            if self.code_pkg.additional.is_address():
+                self.code_pkg.additional = statements[self.code_pkg.additional.int].code_pkg.address
+            else:
+                self.code_pkg.additional = self.code_pkg.additional.calculate_address_offset(statements)
+            return
 
         if self.code_pkg.additional_needs_resolution:
             if self.operand.is_indexed() and self.operand.left and self.operand.left.is_address_expression():
